@@ -720,8 +720,15 @@ impl Sim {
                             .get(&key)
                             .is_some_and(|(t2, lk)| *t2 != tx && !locks.contains(lk));
                         if foreign && s == shard {
+                            // table operations write "table:<t>:row:<id>", a key that neither their lock key
+                            // ("<t>") nor their storage_key() ("table:<t>") names: a separate root cause
+                            let sig = if key.starts_with("table:") && key.contains(":row:") {
+                                "abort-undo-erases-write-committed-under-other-lock-key:table-row-key"
+                            } else {
+                                "abort-undo-erases-write-committed-under-other-lock-key"
+                            };
                             (
-                                "abort-undo-erases-write-committed-under-other-lock-key".to_string(),
+                                sig.to_string(),
                                 format!(
                                     "aborting tx#{tx} (lock keys {locks:?}) rolled back {key:?}, which tx#{} had committed under lock key {:?} in the meantime: {detail}",
                                     self.models[shard].last_writer[&key].0, self.models[shard].last_writer[&key].1
@@ -950,7 +957,7 @@ fn main() {
             "a transaction whose duplicated Prepare and duplicated Commit are both delivered is applied twice on that shard; the model follows the participant's reported applications in order (counted, not a violation of this property)",
             "liveness is not asserted: lost messages may leave transactions undecided or participants prepared; only 'decided and nothing lost' end states are checked",
         ],
-        parts: vec![PropPart::new("sim", 50_000, 1_500_000, gen::case_strategy, run_case).shrink_iters(4000).boxed()],
+        parts: vec![PropPart::new("sim", 50_000, 1_200_000, gen::case_strategy, run_case).shrink_iters(4000).boxed()],
         children: vec![],
     });
 }
